@@ -126,12 +126,13 @@ Theorem C02_dominator_worklist_total :
     (forall n, In n nodes -> incl (succs n) nodes) ->
     (forall n p, In n nodes -> In p nodes -> (In p (preds n) <-> In n (succs p))) ->
     (forall n, (length (succs n) <= B)%nat) ->
+    forall ents, (forall n, In n ents <-> In n nodes /\ preds n = []) ->
     forall fuel,
-      entries nodes preds <> [] ->
-      (mu nodes B (init_D nodes (entries nodes preds)) (init_stk nodes (entries nodes preds)) < fuel)%nat ->
-      exists D log, find_dominators nodes (entries nodes preds) preds succs fuel = WOk D log.
+      ents <> [] ->
+      (mu nodes B (init_D nodes ents) (init_stk nodes ents) < fuel)%nat ->
+      exists D log, find_dominators nodes ents preds succs fuel = WOk D log.
 Proof.
-  intros nodes preds succs B H1 H2 H3 H4 H5 fuel H6 H7.
-  destruct (find_dominators_correct nodes preds succs B H1 H2 H3 H4 H5 fuel H6 H7) as [D [lg [E _]]]. eauto.
+  intros nodes preds succs B H1 H2 H3 H4 H5 ents He fuel H6 H7.
+  destruct (find_dominators_correct nodes preds succs B H1 H2 H3 H4 H5 ents He fuel H6 H7) as [D [lg [E _]]]. eauto.
 Qed.
 Print Assumptions C02_dominator_worklist_total.
